@@ -2242,7 +2242,8 @@ class RedunBackendDb(RedunBackend):
             # Fall back to ValueStore to retrieve binary data.
             return self.value_store.get(value_row.value_hash)
         else:
-            raise AssertionError("ValueStore is not defined.")
+            # No ValueStore is configured, so the offloaded data is unavailable.
+            return b"", False
 
     def _get_value(self, value_row: Value) -> tuple[Any, bool]:
         """
@@ -2264,7 +2265,8 @@ class RedunBackendDb(RedunBackend):
             # Fall back to ValueStore.
             return self.value_store.size(value_row.value_hash)
         else:
-            raise AssertionError("ValueStore is not defined.")
+            # No ValueStore is configured, same as data missing from the store.
+            return -1
 
     @db_retry
     def get_value(self, value_hash: str) -> tuple[Any, bool]:
